@@ -481,9 +481,17 @@ def _auth_shape(ctx, r6, rr):
     """In resolve_request_role: Ok(..) returns in the auth_token=Some region."""
     r6.saw(len(rr.g))
     # the test on `expected` (Option<String> from auth_token)
-    exp_locals = [l for l in rr.local_of('expected')]
-    # first `expected` is the Option, found by type
-    opt = [l for l in exp_locals if rr.local_ty(l).startswith('core::option::Option<')]
+    # the configured-token option: an Option-typed local that derives from ControlState.auth_token and is tested
+    # (the source name `expected` is only a tie-breaker)
+    _xp = lambda n: re.search(r'Mutex(::)?<.*>::lock$|Option(::)?<.*>::and_then$|Result(::)?<.*>::ok$', n) is not None
+    cands = []
+    for l in sorted(rr.defs):
+        if rr.local_ty(l).startswith('core::option::Option<') and 1 <= len(rr.defs[l]):
+            if any(o[0] == 'field' and o[1].endswith('ControlState.auth_token') for o in origins(rr, l, extra_pass=_xp)):
+                if test_edges(rr, {l: ('val', 'Option')})[0]:
+                    cands.append(l)
+    named = set(rr.local_of('expected'))
+    opt = sorted(cands, key=lambda l: (l not in named, l))
     if not opt:
         r6.bad('shape|expected', 'cannot find the configured-token option local `expected`', loc=rr.loc(0))
         return
